@@ -97,11 +97,12 @@ Definition keys_nonempty (l : list (str * str)) : bool := forallb (fun kv => non
 Fixpoint nodup_b (l : list str) : bool :=
   match l with [] => true | x :: r => negb (existsb (str_eqb x) r) && nodup_b r end.
 
-Definition wf_series (k : kind) (s : series) : bool :=
+Definition points_ok (l : list (str * str)) : bool := forallb (fun p => plain (fst p) && value_ok (snd p)) l.
+Definition wf_series (k : fkind) (s : series) : bool :=
   keys_nonempty (s_labels s) &&
   match k with
-  | KCounter | KGauge => value_ok (s_value s)
-  | _ => forallb (fun p => plain (fst p) && value_ok (snd p)) (s_points s) && value_ok (s_sum s) && value_ok (s_count s)
+  | FCounter | FGauge => value_ok (s_value s)
+  | FDist => points_ok (s_points s) && points_ok (s_buckets s) && value_ok (s_sum s) && value_ok (s_count s)
   end.
 
 Definition wf_family (f : family) : bool :=
@@ -138,11 +139,11 @@ Definition series_lines (k : kind) (s : series) : nat :=
   match k with
   | KCounter | KGauge => 1
   | KSummary => List.length (s_points s) + 2
-  | KHistogram => List.length (s_points s) + 3
+  | KHistogram => List.length (s_buckets s) + 3
   end.
 Fixpoint sum_nat (l : list nat) : nat := match l with [] => 0 | x :: r => x + sum_nat r end.
 Definition expected_samples (rc : rcase) : nat :=
-  sum_nat (map (fun f => sum_nat (map (series_lines (f_kind f)) (f_series f))) (fams rc)).
+  sum_nat (map (fun f => sum_nat (map (series_lines (type_kind (gbuckets rc) (overrides rc) f)) (f_series f))) (fams rc)).
 Definition expected_helps (rc : rcase) : nat :=
   List.length (filter (fun f => match f_desc f with Some _ => true | None => false end) (fams rc)).
 
